@@ -56,12 +56,14 @@ var forbidden = map[string]string{
 
 // Result of a rewrite.
 type Result struct {
-	Overlay   string   // path of overlay.json
-	Files     []string // rewritten files
-	MapRanges int
-	GoStmts   int
-	LockSites []string // file:line of every Lock/RLock call (original positions)
-	Warnings  []string
+	Overlay string // path of overlay.json
+	// OverlayShimsOnly: overlay that only adds the shim packages (sod sources untouched)
+	OverlayShimsOnly string
+	Files            []string // rewritten files
+	MapRanges        int
+	GoStmts          int
+	LockSites        []string // file:line of every Lock/RLock call (original positions)
+	Warnings         []string
 }
 
 type unsupported struct{ msg string }
@@ -150,6 +152,19 @@ func Run(repo, shimDir, outDir string, extra map[string]string) (*Result, error)
 	}
 	for rel, real := range extra {
 		overlay[filepath.Join(repo, rel)] = real
+	}
+	// a second overlay with the shim packages only: package sod itself untouched
+	// (used by the self-test that compares the shimmed build with the real thing)
+	shimsOnly := map[string]string{}
+	for k, v := range overlay {
+		if strings.Contains(k, "/zzverif/") {
+			shimsOnly[k] = v
+		}
+	}
+	sdata, _ := json.MarshalIndent(map[string]interface{}{"Replace": shimsOnly}, "", " ")
+	res.OverlayShimsOnly = filepath.Join(outDir, "overlay_shims.json")
+	if err := os.WriteFile(res.OverlayShimsOnly, sdata, 0644); err != nil {
+		return nil, err
 	}
 	data, _ := json.MarshalIndent(map[string]interface{}{"Replace": overlay}, "", " ")
 	res.Overlay = filepath.Join(outDir, "overlay.json")
